@@ -51,6 +51,64 @@ fn brute_force(expected: &Poly, got: &Poly, ids: &[u64]) -> Option<(Vec<u64>, St
     None
 }
 
+/// The SDK's own route to a QUBO: minimisation form, integers log-encoded and substituted, inequalities
+/// turned into equalities with integer slacks (log-encoded as well), penalty method, weights instantiated.
+/// None when a step refuses (e.g. a slack range the interval analysis cannot bound).
+fn to_qubo_pipeline(rng: &mut Rng) -> Option<v1::Instance> {
+    let mut inst = v1::Instance::default();
+    let nv = 1 + rng.usize_below(3);
+    let mut ids = vec![];
+    for j in 0..nv {
+        let id = [0u64, 1, 2][j] + if rng.bool() { 0 } else { 10 };
+        if rng.bool() {
+            inst.decision_variables.push(dvar(id, KIND_BINARY, Some((0.0, 1.0))));
+        } else {
+            let l = rng.range(-1, 1) as f64;
+            inst.decision_variables.push(dvar(id, KIND_INTEGER, Some((l, l + rng.range(1, 3) as f64))));
+        }
+        ids.push(id);
+    }
+    let small = |rng: &mut Rng| *rng.pick(&[1.0, -1.0, 2.0, -2.0, 3.0]);
+    let mut terms: Vec<(Vec<u64>, f64)> = ids.iter().map(|i| (vec![*i], small(rng))).collect();
+    if rng.bool() {
+        terms.push((vec![*rng.pick(&ids), *rng.pick(&ids)], small(rng)));
+    }
+    terms.push((vec![], small(rng)));
+    inst.objective = Some(f_polynomial(polynomial(terms)));
+    inst.sense = if rng.bool() { SENSE_MIN } else { SENSE_MAX };
+    for c in 0..rng.below(3) {
+        let mut lin: Vec<(u64, f64)> = vec![];
+        for i in &ids {
+            if rng.chance(2, 3) {
+                lin.push((*i, small(rng)));
+            }
+        }
+        inst.constraints.push(constraint(c, if rng.bool() { EQ_ZERO } else { LE_ZERO }, Some(f_linear(linear(lin, rng.range(-3, 2) as f64)))));
+    }
+    let weights_two = rng.bool();
+    let uniform = rng.bool();
+    crate::monitor::probe(move || -> Option<v1::Instance> {
+        let mut i = inst;
+        i.as_minimization_problem();
+        let ineq: Vec<u64> = i.constraints.iter().filter(|c| c.equality == LE_ZERO).map(|c| c.id).collect();
+        for id in ineq {
+            i.convert_inequality_to_equality_with_integer_slack(id, 32).ok()?;
+        }
+        let ints: Vec<u64> = i.decision_variables.iter().filter(|v| v.kind == KIND_INTEGER).map(|v| v.id).collect();
+        for id in ints {
+            let lin = i.log_encode(id).ok()?;
+            let mut m = std::collections::HashMap::new();
+            m.insert(id, v1::Function::from(lin));
+            i.substitute(m).ok()?;
+        }
+        let pi = if uniform { i.uniform_penalty_method() } else { i.penalty_method() }.ok()?;
+        let w = parameters(pi.parameters.iter().map(|p| (p.id, if weights_two { 2.0 } else { 1.0 })));
+        pi.with_parameters(w).ok()
+    })
+    .ok()
+    .flatten()
+}
+
 impl Property for C11 {
     fn id(&self) -> &'static str {
         "C11"
@@ -68,7 +126,7 @@ impl Property for C11 {
         }
     }
     fn rule(&self) -> &'static str {
-        "each case: an instance over 1-12 binary variables (ids small / sparse / huge, bounds absent or [0,1]) whose objective is a hostile function message of degree <= 4 (PUBO) or with <= 2 distinct variables per term (QUBO) incl. repeated ids inside monomials, x_i^2, cancelling pairs, constants only, absent objective; optional removed constraints; exported with as_pubo_format and as_qubo_format. The dictionaries are read back into polynomials and compared (a) coefficient by coefficient with the exact objective reduced by x^2=x (two multilinear polynomials agree on {0,1}^n iff their coefficients agree) and (b) by brute force on all 2^n assignments in exact scaled-integer arithmetic. Refusal cases (active constraint, maximise, non-binary variable in a non-zero term, QUBO term with 3 distinct variables) must give Err. Non-trivial = objective of degree >= 1; distinct = fingerprint of the instance."
+        "each case: an instance over 1-12 binary variables (ids small / sparse / huge, bounds absent or [0,1]) whose objective is a hostile function message of degree <= 4 (PUBO) or with <= 2 distinct variables per term (QUBO; one case in seven the objective comes out of the SDK's own QUBO pipeline: minimisation form, integers log-encoded and substituted, inequalities turned into equalities with log-encoded integer slacks, penalty method, weights instantiated) incl. repeated ids inside monomials, x_i^2, cancelling pairs, constants only, absent objective; optional removed constraints; exported with as_pubo_format and as_qubo_format. The dictionaries are read back into polynomials and compared (a) coefficient by coefficient with the exact objective reduced by x^2=x (two multilinear polynomials agree on {0,1}^n iff their coefficients agree) and (b) by brute force on all 2^n assignments in exact scaled-integer arithmetic. Refusal cases (active constraint, maximise, non-binary variable in a non-zero term, QUBO term with 3 distinct variables) must give Err. Non-trivial = objective of degree >= 1; distinct = fingerprint of the instance."
     }
     fn assumptions(&self) -> Vec<&'static str> {
         vec![
@@ -147,8 +205,32 @@ impl Property for C11 {
             inst.removed_constraints.push(removed(c, "relaxed earlier", Default::default()));
             mon.facet("removed-constraint-over-a-non-binary-variable");
         }
+        // one case in seven: the objective comes out of the SDK's own QUBO pipeline (minimisation form,
+        // log-encoding of integers, slack variables for inequalities, penalty method, instantiated weights)
+        let mut ids = ids;
+        let mut n = n;
+        let mut qubo_shaped = qubo_shaped;
+        let mut regime = regime;
+        let mut from_pipeline = false;
+        if k % 7 == 3 {
+            if let Some(pi) = to_qubo_pipeline(rng) {
+                let used: BTreeSet<u64> = occurring_ids(&opt_fn(&pi.objective)).into_iter().collect();
+                if used.len() <= 16 {
+                    ids = used.into_iter().collect();
+                    if ids.is_empty() {
+                        ids.push(pi.decision_variables.first().map_or(0, |v| v.id));
+                    }
+                    n = ids.len();
+                    inst = pi;
+                    qubo_shaped = true;
+                    regime = Regime::D;
+                    from_pipeline = true;
+                    mon.facet("objective-out-of-the-QUBO-pipeline");
+                }
+            }
+        }
         // refusal scenarios
-        let scenario = rng.below(10);
+        let scenario = if from_pipeline { 9 } else { rng.below(10) };
         let mut refuse_pubo: Option<&'static str> = None;
         let mut refuse_qubo: Option<&'static str> = None;
         match scenario {
@@ -228,8 +310,8 @@ impl Property for C11 {
                 }
             }
             if exact_mode && ids.len() <= 16 {
-                let mut all_ids: Vec<u64> = inst.decision_variables.iter().map(|v| v.id).collect();
-                all_ids.sort_unstable();
+                // the variables either polynomial mentions (the others cannot make a difference)
+                let all_ids: Vec<u64> = expected.terms.keys().chain(got.terms.keys()).flatten().cloned().collect::<BTreeSet<u64>>().into_iter().collect();
                 if let Some((ones, why)) = brute_force(&expected, got, &all_ids) {
                     mon.violation(format!("C11.{which}:assignment"), format!("at the assignment with ones at {ones:?}: {why}\nexport={shown}\n{}", ctx()));
                 } else {
